@@ -119,7 +119,7 @@ class _GlobalRandomStub:
         return seq[self._n() % len(seq)]
 
     def random(self):
-        return (self._n() % 1000) / 1000.0
+        return (0.0, 0.3, 0.6, 0.95)[self._n() % 4]      # a table, so that no symbolic float arithmetic is needed
 
     def shuffle(self, seq):
         for i in range(1, len(seq)):
@@ -302,3 +302,35 @@ def h_generate(s0: int, s1: int, s2: int, s3: int, s4: int, s5: int, acc: int) -
             if code == 1:
                 return True
     return False
+
+
+def _generate_run(feed: List[int]):
+    """generate_problem under the deterministic PRNG with Python's global random replaced by `feed`; scripted pure callbacks
+    that reach the annealing acceptance test (satisfiable, not unique, sometimes worse score)"""
+    stub = _GlobalRandomStub(feed)
+    saved = {}
+    for name in ("randint", "choice", "random", "shuffle"):
+        saved[name] = getattr(_pyrandom, name)
+        setattr(_pyrandom, name, getattr(stub, name))
+    calls = []
+
+    def solver(problem):
+        calls.append(copy.deepcopy(problem))
+        return (True, _Ans(False, 10 - 3 * (len(calls) % 3)))
+    try:
+        srandom.use_deterministic_prng(True, seed=3)
+        res = generate_problem(solver, builder_pattern=[Choice([0, 1, 2], default=0), Choice([0, 1], default=0)],
+                               uniqueness=lambda a: a.unique, score=lambda a: a.score, max_steps=3, initial_temperature=2.0)
+    finally:
+        for name, f in saved.items():
+            setattr(_pyrandom, name, f)
+    return calls, res
+
+
+def h_generate_reproducible(f0: int, f1: int, g0: int, g1: int) -> bool:
+    """
+    same seed => same sequence of problems handed to the solver and same result, whatever Python's global random returns
+    pre: 0 <= f0 <= 3 and 0 <= f1 <= 3 and 0 <= g0 <= 3 and 0 <= g1 <= 3
+    post: _
+    """
+    return _generate_run([f0, f1]) == _generate_run([g0, g1])
